@@ -113,6 +113,13 @@ def cases_from(out, tag="CASE"):
     return [json.loads(p) for p in payloads]
 
 
+def nonempty(cases, what):
+    """A generator that yields no case would make a check vacuous: that is a tool error, never a pass."""
+    if not cases:
+        raise ToolError(f"generator produced no cases: {what}")
+    return cases
+
+
 def cfg_text(init="Init", next_="Next", constants=None, invariants=(), constraint=None, spec=None,
              postcondition=None, view=None, extra=""):
     lines = []
